@@ -27,7 +27,8 @@ EXPLANATION = (
     'quoted-string scan and the whitespace/comment skipper never advance past a byte that may be the '
     'terminating NUL, and the decoder\'s buffer is the scanned length plus one with at most one byte stored '
     'per byte consumed; (BND.3) in the decoding pass an escape skips at most the backslash, the escaped '
-    'character and the bytes proven to be hex digits.  Termination and leaks on error exits are not decided.')
+    'character and the bytes proven to be hex digits.  Termination and leaks on error exits are not decided.'
+    ' Rounds 8-9: (BND.5) vector capacity updates strictly grow; (BND.6) tables indexed by a value computed from the text stay in range; (BND.7) a file size is known to fit before it reaches a narrower parameter; (MPT.6) a va_list is walked once; (WIRE.2) the reload signal is persistent.')
 ASSUMPTIONS = ['clang 14 CFG; setjmp/longjmp modelled through the call graph (clang builds no longjmp edges)',
                'allocation failure is fatal (xmalloc)']
 
